@@ -259,6 +259,8 @@ def any_profile(reopen_ok=False, weights=None, with_manydirs=False):
         table['bootlinks'] = bootlinks(reopen_ok=reopen_ok)
     if 'reloctwins' in w:
         table['reloctwins'] = reloctwins(reopen_ok=reopen_ok)
+    if 'twoboots' in w:
+        table['twoboots'] = twoboots(reopen_ok=reopen_ok)
     if 'readd' in w:
         table['readd'] = readd(reopen_ok=reopen_ok)
     if 'symcomps' in w:
@@ -434,6 +436,33 @@ def bootlinks(cfg=None, reopen_ok=True):
     # 'hideall': every name of the boot file goes, then (after a reopen) El Torito itself - the content's last reference
     hideall = st.sampled_from([[], [], [{'k': 'rm_link', 'b': 0, 'j': 0}] * 4 + ([{'k': 'reopen'}] if reopen_ok else [{'k': 'write'}]) + [{'k': 'rm_boot'}, {'k': 'write'}]])
     return program(c, st.builds(lambda f, o, b, p, u, m, h, t: [f] + o + b + p + u + m + h + t, bootfile, other, boots, prelinks, unlink_iso, st.one_of(*mid_choices), hideall, body))
+
+
+def twoboots(cfg=None, reopen_ok=True):
+    """Two or three *different* boot files added one right after the other (neighbours in whatever order the library
+    keeps content in), one catalogue entry on each (the second and third become sections), then every name of every one
+    of them goes (`bo` picks names of boot-referenced content only) so that the catalogue is their last reference, and
+    El Torito itself is removed - optionally after a write or a reopen - and the image goes on being edited."""
+    c = cfg if cfg is not None else cfg_st(joliet=st.sampled_from([3, None, None]), udf=st.sampled_from([False, False, True]))
+    BF = add_fp(length=st.sampled_from([2748, 5000, 7000, 9000, 2048, 64]), ck=st.sampled_from([1, 0]), ns=st.sampled_from([7, 1, 1, 3]), d=st.just(0), file=st.just(False))
+    other = st.lists(add_fp(length=st.sampled_from([3, 5000, 7000, 2048]), d=st.just(0), file=st.just(False)), min_size=0, max_size=2)
+
+    def build(before, bfs, after, bootkw, mid, hide_n, mid2, tail):
+        n0 = len(before)
+        ops = before + bfs + after
+        for k in range(len(bfs)):
+            ops.append(dict(bootkw[k], b=n0 + k, j=0, media=0, load=None, efi=(k > 0 and bootkw[k].get('efi', 0))))
+        ops += mid
+        ops += [{'k': 'rm_link', 'b': 0, 'j': 0, 'bo': 1}] * hide_n
+        ops += mid2
+        ops += [{'k': 'rm_boot'}, {'k': 'write'}]
+        return ops + tail
+    mids = [st.just([]), st.just([{'k': 'write'}])]
+    if reopen_ok:
+        mids += [st.just([{'k': 'reopen'}])]
+    tail = st.lists(st.one_of(add_fp(length=SMALL_LEN), rm_file, write, add_dir(d=st.just(0)), add_boot), min_size=0, max_size=4)
+    return program(c, st.builds(build, other, st.lists(BF, min_size=2, max_size=3), other, st.lists(add_boot, min_size=3, max_size=3), st.one_of(*mids),
+                                st.sampled_from([12, 12, 12, 3, 1]), st.one_of(*mids), tail))
 
 
 def reloctwins(cfg=None, reopen_ok=False):
